@@ -3,12 +3,12 @@
 (* stimulus generation.                                                     *)
 EXTENDS Replication, TLC
 
-CONSTANTS MaxMsgs, MaxElect, MaxCrash, MaxIsrOps, MaxRejects, Policies, UseCheckpoint, IgnoreTaints, Batch
-VARIABLES last, nMsgs, nElect, nCrash, nIsr, nRej
-mcvars == <<vars, last, nMsgs, nElect, nCrash, nIsr, nRej>>
-budget == <<nMsgs, nElect, nCrash, nIsr, nRej>>
+CONSTANTS MaxMsgs, MaxElect, MaxCrash, MaxIsrOps, MaxRejects, Policies, UseCheckpoint, IgnoreTaints, Batch, MaxPause
+VARIABLES last, nMsgs, nElect, nCrash, nIsr, nRej, nPause
+mcvars == <<vars, last, nMsgs, nElect, nCrash, nIsr, nRej, nPause>>
+budget == <<nMsgs, nElect, nCrash, nIsr, nRej, nPause>>
 
-MCInit == Init /\ last = [a |-> "Init"] /\ nMsgs = 0 /\ nElect = 0 /\ nCrash = 0 /\ nIsr = 0 /\ nRej = 0
+MCInit == Init /\ last = [a |-> "Init"] /\ nMsgs = 0 /\ nElect = 0 /\ nCrash = 0 /\ nIsr = 0 /\ nRej = 0 /\ nPause = 0
 
 \* one batch of 1..Batch messages with any mix of ack policies; in a batch of more
 \* than one message any member but the first may be too large (rejected)
@@ -19,30 +19,34 @@ MCPublish(pols, bigs) ==
   /\ ~bigs[1] /\ nRej + nb <= MaxRejects
   /\ DoPublish(recs)
   /\ last' = [a |-> "Publish", recs |-> recs]
-  /\ nMsgs' = nMsgs + Len(pols) /\ nRej' = nRej + nb /\ UNCHANGED <<nElect, nCrash, nIsr>>
+  /\ nMsgs' = nMsgs + Len(pols) /\ nRej' = nRej + nb /\ UNCHANGED <<nElect, nCrash, nIsr, nPause>>
 MCReject ==
   /\ nRej < MaxRejects
   /\ DoPublishRejected(100 + nRej)
   /\ last' = [a |-> "PublishRejected", v |-> 100 + nRej]
-  /\ nRej' = nRej + 1 /\ UNCHANGED <<nMsgs, nElect, nCrash, nIsr>>
+  /\ nRej' = nRej + 1 /\ UNCHANGED <<nMsgs, nElect, nCrash, nIsr, nPause>>
 MCFetch(f, late) == DoFetch(f, late) /\ last' = [a |-> "Fetch", f |-> f, late |-> late] /\ UNCHANGED budget
 MCLagExpire(f) == DoLagExpire(f) /\ last' = [a |-> "LagExpire", f |-> f] /\ UNCHANGED budget
 MCShrink(f) == nIsr < MaxIsrOps /\ DoShrink(f) /\ last' = [a |-> "Shrink", f |-> f]
-               /\ nIsr' = nIsr + 1 /\ UNCHANGED <<nMsgs, nElect, nCrash, nRej>>
+               /\ nIsr' = nIsr + 1 /\ UNCHANGED <<nMsgs, nElect, nCrash, nRej, nPause>>
 MCExpand(f) == nIsr < MaxIsrOps /\ DoExpand(f) /\ last' = [a |-> "Expand", f |-> f]
-               /\ nIsr' = nIsr + 1 /\ UNCHANGED <<nMsgs, nElect, nCrash, nRej>>
+               /\ nIsr' = nIsr + 1 /\ UNCHANGED <<nMsgs, nElect, nCrash, nRej, nPause>>
 MCCheckpoint(r) == UseCheckpoint /\ DoCheckpoint(r) /\ last' = [a |-> "Checkpoint", r |-> r] /\ UNCHANGED budget
 MCCrash(r) == nCrash < MaxCrash /\ DoCrash(r) /\ last' = [a |-> "Crash", r |-> r]
-              /\ nCrash' = nCrash + 1 /\ UNCHANGED <<nMsgs, nElect, nIsr, nRej>>
+              /\ nCrash' = nCrash + 1 /\ UNCHANGED <<nMsgs, nElect, nIsr, nRej, nPause>>
 MCRestart(r, reach) == DoRestart(r, reach) /\ last' = [a |-> "Restart", r |-> r, reach |-> reach] /\ UNCHANGED budget
 MCElect(n, reach, lag) == nElect < MaxElect /\ DoElect(n, reach, lag)
                      /\ last' = [a |-> "Elect", n |-> n, reach |-> reach, lag |-> lag]
-                     /\ nElect' = nElect + 1 /\ UNCHANGED <<nMsgs, nCrash, nIsr, nRej>>
+                     /\ nElect' = nElect + 1 /\ UNCHANGED <<nMsgs, nCrash, nIsr, nRej, nPause>>
 MCStaleFetch(f) == DoStaleFetch(f) /\ obs.acks = obs.acks /\ last.a # "StaleFetch"
                    /\ last' = [a |-> "StaleFetch", f |-> f] /\ UNCHANGED budget
 MCApplyMeta(f, reach) == DoApplyMeta(f, reach) /\ last' = [a |-> "ApplyMeta", f |-> f, reach |-> reach] /\ UNCHANGED budget
 
+MCPauseResume == nPause < MaxPause /\ DoPauseResume /\ last' = [a |-> "PauseResume"]
+                 /\ nPause' = nPause + 1 /\ UNCHANGED <<nMsgs, nElect, nCrash, nIsr, nRej>>
+
 MCNext ==
+  \/ MCPauseResume
   \/ \E n \in 1..Batch : \E pols \in [1..n -> Policies], bigs \in [1..n -> BOOLEAN] : MCPublish(pols, bigs)
   \/ MCReject
   \/ \E f \in R, late \in BOOLEAN : MCFetch(f, late)
@@ -86,5 +90,5 @@ NoBadAck_HWFallback == ~(taint = {"hw-fallback"} /\ AckBad)
 NoBadAck_ExpandLagging == ~(taint = {"expand-lagging"} /\ AckBad)
 NoBadAck_StaleIsrOffset == ~(taint = {"stale-isr-offset"} /\ AckBad)
 
-MCView == <<meta, up, role, log, hw, hwDisk, ec, isrOff, pend, caught, committed, nacked, taint, lagging, nMsgs, nElect, nCrash, nIsr, nRej>>
+MCView == <<meta, up, role, log, hw, hwDisk, ec, isrOff, pend, caught, committed, nacked, taint, lagging, nMsgs, nElect, nCrash, nIsr, nRej, nPause>>
 =============================================================================
